@@ -123,6 +123,37 @@ var escGrid = func() []gridIRI {
 	return out
 }()
 
+// a third small grid: the well-known constants of the vocabulary and other presentations of the same addresses (a shortcut keyed
+// on a constant must not answer differently from the general comparison)
+var constGrid = func() []gridIRI {
+	var out []gridIRI
+	add := func(s string) {
+		k1, ok1 := refKey(s, true)
+		k0, ok0 := refKey(s, false)
+		if !ok1 || !ok0 {
+			panic("constant grid IRI does not parse: " + s)
+		}
+		out = append(out, gridIRI{s, [2]string{k1, k0}})
+	}
+	for _, c := range []string{string(vocab.PublicNS), string(vocab.ActivityBaseURI), string(vocab.SecurityContextURI)} {
+		u := c
+		frag := ""
+		if i := strings.IndexByte(u, '#'); i >= 0 {
+			u, frag = c[:i], c[i:]
+		}
+		rest := strings.TrimPrefix(u, "https://")
+		host, pth := rest, ""
+		if i := strings.IndexByte(rest, '/'); i >= 0 {
+			host, pth = rest[:i], rest[i:]
+		}
+		for _, v := range []string{c, u, "http://" + rest + frag, "https://" + strings.ToUpper(host) + pth + frag, u + "/" + frag, "https://" + host + "/." + pth + frag,
+			u + "#public", u + "#Followers", u + "?x=1" + frag, "https://" + host + pth + "x" + frag, "https://" + host + ":443" + pth + frag} {
+			add(v)
+		}
+	}
+	return out
+}()
+
 var nonURLStrings = []string{"", "-", "a", "not a url", "mailto:user@example.com", "acct:user@example.com", "/relative/path", "//host/path", "https://", "https:///nohost", "http://[::1", "%zz", "https://example.com/%zz",
 	"example.com/a", "HTTPS://EXAMPLE.COM/A", "https://example.com/a#", "#", "?", "https://user:pw@example.com/a", "urn:uuid:1234", "https://example.com/a b", "\x00", "https://例え.jp/パス", "as:Public", "Public"}
 
@@ -132,7 +163,7 @@ func init() {
 	n := len(grid)
 	Register(&Prop{
 		ID: "C14",
-		Rule: fmt.Sprintf("exhaustive grid: %d schemes x %d hosts(+port, case) x %d paths (empty, /, trailing slash, case, dot segments, doubled slashes) x %d queries (none, empty, single, reordered pair, repeated key with equal/differing/swapped values) x %d fragments = %d IRIs; every ordered pair x both scheme flags must satisfy a.Equals(b,cs) <=> refKey(a,cs)=refKey(b,cs) (hence reflexive, symmetric, transitive); IRIs.Contains must agree with exists-member-Equals; a second grid of %d IRIs whose paths and queries hold percent-escaped reserved characters (%%23 %%3F %%2F %%25 %%20, escaped UTF-8) under the same oracle; "+
+		Rule: fmt.Sprintf("exhaustive grid: %d schemes x %d hosts(+port, case) x %d paths (empty, /, trailing slash, case, dot segments, doubled slashes) x %d queries (none, empty, single, reordered pair, repeated key with equal/differing/swapped values) x %d fragments = %d IRIs; every ordered pair x both scheme flags must satisfy a.Equals(b,cs) <=> refKey(a,cs)=refKey(b,cs) (hence reflexive, symmetric, transitive); IRIs.Contains must agree with exists-member-Equals; a second grid of %d IRIs whose paths and queries hold percent-escaped reserved characters (%%23 %%3F %%2F %%25 %%20, escaped UTF-8) under the same oracle; a third grid of the well-known constants (public collection, ActivityStreams and security context addresses) in 11 presentations each, under the same oracle for Equals and for membership in IRI and item lists; "+
 			"seeded random strings and near-URLs are held to reflexivity and symmetry; one case = one row of the grid (a fixed left IRI against all right IRIs) or one random pair; distinct = row / pair; non-trivial = every row (each holds equal and unequal pairs)",
 			len(gridSchemes), len(gridHosts), len(gridPaths), len(gridQueries), len(gridFrags), n, len(escGrid)),
 		Layers: func(tier string) []Layer {
@@ -217,6 +248,49 @@ func init() {
 						}
 					})
 					c.Eval(2 * len(escGrid))
+				}},
+				{Name: "constants", N: len(constGrid), Exhaustive: true, Run: func(c *Ctx, idx int) {
+					a := constGrid[idx]
+					ia := vocab.IRI(a.S)
+					c.Distinct("const-row|"+a.S, true)
+					c.Guard("IRI.Equals", func() {
+						for _, b := range constGrid {
+							for f, cs := range []bool{true, false} {
+								got, want := ia.Equals(vocab.IRI(b.S), cs), a.Key[f] == b.Key[f]
+								c.Count("constant-comparisons", 1)
+								if got != want {
+									c.Fail("iri|Equals|constant|disagrees", fmt.Sprintf("IRI(%q).Equals(%q, %v) = %v, reference normaliser says %v", a.S, b.S, cs, got, want), map[string]any{"a": a.S, "b": b.S, "checkScheme": cs})
+								}
+							}
+						}
+					})
+					// membership: the needle a against every one-member and two-member list drawn from the grid
+					c.Guard("IRIs.Contains", func() {
+						for j, b := range constGrid {
+							other := constGrid[(j+5)%len(constGrid)]
+							for _, lst := range []vocab.IRIs{{vocab.IRI(b.S)}, {vocab.IRI(other.S), vocab.IRI(b.S)}} {
+								want := false
+								for _, m := range lst {
+									if k, _ := refKey(string(m), false); k == a.Key[1] {
+										want = true
+									}
+								}
+								c.Count("constant-contains", 1)
+								if got := lst.Contains(ia); got != want {
+									c.Fail("iri|Contains|constant|disagrees", fmt.Sprintf("IRIs%v.Contains(%q) = %v, reference normaliser says %v", lst, a.S, got, want), map[string]any{"list": lst, "x": a.S})
+								}
+								// item lists answer the same for IRI members
+								il := vocab.ItemCollection{}
+								for _, m := range lst {
+									il = append(il, m)
+								}
+								if got := il.Contains(ia); got != want {
+									c.Fail("iri|ItemCollection.Contains|constant|disagrees", fmt.Sprintf("ItemCollection%v.Contains(%q) = %v, reference normaliser says %v", lst, a.S, got, want), map[string]any{"list": lst, "x": a.S})
+								}
+							}
+						}
+					})
+					c.Eval(4 * len(constGrid))
 				}},
 				{Name: "strings", N: tierN(tier, 50000, 1000000), Run: func(c *Ctx, idx int) {
 					mk := func() string {
